@@ -205,8 +205,9 @@ PROPS = {
         modules=["specs.rbcommon", "specs.patching", "specs.formatter", "specs.makepre", "specs.aclmatch", "specs.basediff"],
         bounded=[("bounded.c01", "run")],
         assumes=["A2", "A3", "A6", "A7", "A8", "A9"],
-        trusted=["make_pre is proved equal to its bucket-grouping spec (diffs without %multiline rules); make_diff / apply_diff_rb / "
-                 "make_patch / Orderer.get_order are not under discharged contracts: the composition lemma L-C01 is not proved; "
+        trusted=["make_pre is proved equal to its bucket-grouping spec (diffs without %multiline rules), base_diff / default_diff / "
+                 "ordered_diff equal to the per-level diff spec (make_diff / apply_diff_rb are proved under C03); call_diff_logic is an "
+                 "assumed contract; make_patch / Orderer.get_order are not under discharged contracts: the composition lemma L-C01 is not proved; "
                  "convergence is decided by the bounded layer with an executable device simulator written from the statement",
                  "blocks_and_context (token stream producer) is an assumed contract (well-bracketed stream)"],
     ),
